@@ -66,6 +66,8 @@ pub fn exec(op: &str, a: &[Vec<u8>]) -> Option<Resp> {
             o.extend_from_slice(&e.pk);
             o.extend_from_slice(&e.pk);
             o.push(Aff::decompress(&e.pk).unwrap().is_small_order() as u8);
+            o.extend_from_slice(&[1u8; 10]);
+            o.extend_from_slice(&Aff::IDENTITY.compress());
             Resp::Ok(o)
         }
         "sig.generate" => {
@@ -93,7 +95,7 @@ pub fn exec(op: &str, a: &[Vec<u8>]) -> Option<Resp> {
             for _ in 0..3 {
                 o.extend_from_slice(&s);
             }
-            o.extend_from_slice(&[1, 1, 1]);
+            o.extend_from_slice(&[1, 1, 1, 0, 0, 0]);
             Resp::Ok(o)
         }
         "sig.sign_ph" => {
